@@ -200,6 +200,28 @@ def run(ctx, res):
                 res.bad("WHO-SETS", "%s # sets-flag" % p, "%s writes true into an interrupt flag; only the interrupt op, close_session, connection teardown and the SIGINT watchdog may" % p, fn.loc(t["span"]))
     res.floor("WHO-SETS", "writers of `true` into interrupt flags in nrepl", n_w, 3)
 
+    # ---- WHO-CLEARS: a pending interrupt may be wiped only where it is consumed or where a new request begins:
+    # eval's Interrupted exit and the worker's dequeue. Any other store(false) can erase an interrupt that was sent
+    # to a running eval (e.g. clearing on *enqueue*, while the previous eval is still executing).
+    # sigint_watchdog consumes the process-wide SIGINT flag with swap(false) (not a session flag) and fans it out
+    clear_ok = {"nrepl::session_worker", "eval::eval", "nrepl::sigint_watchdog"}
+    n_c = 0
+    for p in sorted(P.funcs):
+        fn = P.funcs[p]
+        if not (p.startswith("nrepl::") or p.startswith("eval::") or p.startswith("json_session::")):
+            continue
+        for (bi, t, v, n) in stores(fn):
+            if v is not False:
+                continue
+            n_c += 1
+            if p.split("::{closure")[0] in clear_ok:
+                res.ok("WHO-CLEARS", "%s clears an interrupt flag (%s)" % (p, n))
+            else:
+                res.bad("WHO-CLEARS", "%s # clears-flag" % p, "`%s` writes false into an interrupt flag; only the worker's dequeue and "
+                        "eval's consumed-interrupt exit may (a clear anywhere else can erase an interrupt aimed at the eval that is "
+                        "still running)" % p, fn.loc(t["span"]))
+    res.floor("WHO-CLEARS", "writers of `false` into interrupt flags", n_c, 2)
+
     # ---- PER-STEP-CHECK --------------------------------------------------------------
     L = EL.locate(P)
     f = L.f
